@@ -66,7 +66,13 @@ def run(prog: Program, rep: Report, tier: str):
     env = p.env
     # R19.2
     def is_cls_dict(tm):
-        return tm[0] == "dict" and any(k is None and v == ("attr", CLS, "__dict__") for k, v in tm[1])
+        """A fresh copy of the class namespace: {**cls.__dict__}, dict(cls.__dict__), cls.__dict__.copy()."""
+        src = ("attr", CLS, "__dict__")
+        if tm[0] == "dict" and any(k is None and v == src for k, v in tm[1]):
+            return True
+        if tm[0] == "call" and tm[1] == ("attr", src, "copy") and not tm[2]:
+            return True
+        return T.is_call_to(tm, "builtins.dict") and tm[2] == (src,)
 
     cls_dict_sets = [e for pth in rets for e in pth.events if e[0] == "setitem" and is_cls_dict(e[1])]
     slots = [e for e in cls_dict_sets if e[2] == ("const", "__slots__")]
@@ -133,7 +139,7 @@ def run(prog: Program, rep: Report, tier: str):
     ok_new = False
     if new_cls is not None and len(new_cls[2]) == 3:
         a0, a1, a2 = new_cls[2]
-        ok_new = a0 == ("attr", CLS, "__name__") and a1 == ("attr", CLS, "__bases__") and a2[0] == "dict" and any(k is None and v == ("attr", CLS, "__dict__") for k, v in a2[1])
+        ok_new = a0 == ("attr", CLS, "__name__") and a1 == ("attr", CLS, "__bases__") and is_cls_dict(a2)
     rep.check(ok_new, "R19.3", q, f.loc, "new class = cls.__class__(cls.__name__, cls.__bases__, {**cls.__dict__, …})", "the slotted class is not rebuilt from the original's metaclass, name, bases and a copy of its dict", detail="rebuild")
     qn = all(any(e[0] == "setattr" and e[2] == "__qualname__" and e[3] == ("attr", CLS, "__qualname__") and e[1] == built.get(i) for e in pth.events) for i, pth in enumerate(rets))
     rep.check(qn, "R19.3", q, f.loc, "__qualname__ is propagated to the new class", "__qualname__ is not propagated: type() resets it, nested classes lose their qualified name (pickle by reference breaks)", detail="qualname")
